@@ -322,7 +322,7 @@ PROPS = {
                        "of the RDATA (16-bit big-endian head, two octets, key or digest), cmp and partial_cmp agree with it, Dnskey == "
                        "is field-wise. TLSA, SSHFP and OPENPGPKEY (unit rdbin, real text of the PartialEq/PartialOrd/Ord/CanonicalOrd impls): "
                        "== holds exactly for values with the same RDATA, canonical_cmp, cmp and partial_cmp are the octet order of the RDATA "
-                       "(lemmas: the field-by-field order is the octet order of the concatenation); ZONEMD == likewise. MX, SRV and SOA (unit "
+                       "(lemmas: the field-by-field order is the octet order of the concatenation); ZONEMD == likewise. MX, SRV, SOA, RP and MINFO (unit "
                        "rdnames, real text of the impls): == is field-wise with the embedded names compared up to case; cmp and partial_cmp "
                        "agree and order by the fields with names in the RFC 4034 6.1 order; canonical_cmp == octet order of the canonical "
                        "RDATA (integers big-endian, names lower-cased in wire form; for SOA this needs that wire-form names are prefix-free: "
@@ -833,8 +833,9 @@ PROPS = {
                        "parse() reads -- parse accepts exactly the record data that has the fixed octets (ZONEMD: and a digest of at least 12 "
                        "octets), consumes all of it and returns a value whose wire form is the octets read; the layouts are injective, so "
                        "parse(compose(x)) has the fields of x for data of every length. "
-                       "Unit rdnames (rdata/rfc1035/mx.rs, rdata/srv.rs, rdata/rfc1035/soa.rs, real text): record data with embedded names. "
-                       "For MX, SRV and SOA compose_rdata() on a target that does not compress appends wire() (fields in wire order, names as "
+                       "Unit rdnames (rdata/rfc1035/mx.rs, rdata/srv.rs, rdata/rfc1035/soa.rs, rdata/rp.rs, rdata/rfc1035/minfo.rs, real text): record data with embedded names. "
+                       "RP and MINFO (two names): the same clauses as for MX below, with rdlen(true) == None because compose_rdata writes both names in "
+                       "compressed form on a compressing target. For MX, SRV and SOA compose_rdata() on a target that does not compress appends wire() (fields in wire order, names as "
                        "stored); on a compressing target MX and SOA write the same fields in the same order with each name in the target's "
                        "compressed form and SRV still writes it uncompressed (RFC 2782); compose_canonical_rdata() appends canon() = the same "
                        "with exactly the embedded names lower-cased (RFC 4034 6.2); rdlen(false) is the length of both and rdlen(true) is None "
